@@ -235,3 +235,66 @@ def run_second_launch(ctx, rng):
             if p.poll() is None:
                 p.kill()
         shutil.rmtree(wd, ignore_errors=True)
+
+
+RACES = [
+    # (name, VERIF_DELAY_AT directives): a stale token file is reclaimed (deleted) by its watcher thread ...
+    # ... while the second full update of CounterToken.__init__ has listed the file but not yet put it in the cache
+    ("reclaim-during-second-update", "experimaestro/tokens.py::self.cache[path.name] = tf::300;;experimaestro/tokens.py::self.delete()::450"),
+    # ... before the filesystem watcher is registered (first update still running)
+    ("reclaim-before-watcher", "experimaestro/tokens.py::self.cache[path.name] = tf::300;;experimaestro/tokens.py::self.delete()::100"),
+    # ... after everything is set up
+    ("reclaim-after-setup", "experimaestro/tokens.py::self.delete()::900"),
+]
+
+
+def run_directed_race(ctx, rng):
+    """Directed preemption (VERIF_DELAY_AT): a token object is created on a directory that holds the token file of a
+    job that no longer exists; wherever the reclaim of that file falls relative to the object's own start-up, the object
+    must end up with no token file and its full capacity in memory."""
+    import subprocess
+
+    from xvcore import PYTHON, REPO, VERIF
+
+    name, directives = RACES[rng.randrange(len(RACES))]
+    total = rng.choice([1, 2, 3])
+    held = rng.randint(1, total)
+    base = ctx.scratch / f"race{rng.randrange(10**9)}"
+    tok = base / "tok"
+    tok.mkdir(parents=True)
+    (base / "nojob").mkdir()
+    (tok / "stale.token").write_text(f"{held}\n{base / 'nojob' / 'job'}")
+    code = (
+        "import sys, os, time, logging; logging.disable(logging.CRITICAL)\n"
+        "from pathlib import Path\n"
+        "from experimaestro.tokens import CounterToken\n"
+        "d = Path(sys.argv[1])\n"
+        "t = CounterToken('race', d, int(sys.argv[2]))\n"
+        "t0 = time.time()\n"
+        "while list(d.glob('*.token')) and time.time() - t0 < 20: time.sleep(0.05)\n"
+        "time.sleep(1.0)\n"
+        "print('AVAILABLE', t.available, len(list(d.glob('*.token'))), flush=True)\n"
+        "os._exit(0)\n"
+    )
+    w = {"race": name, "directives": directives, "total": total, "held_by_stale_file": held}
+    try:
+        env = {"PATH": os.environ.get("PATH", ""), "HOME": os.environ["HOME"], "PYTHONPATH": f"{VERIF}/lib/inject:{REPO}/src", "XPM_WORKDIR": str(base / "local"), "VERIF_DELAY_AT": directives, "PYTHONDONTWRITEBYTECODE": "1"}
+        try:
+            pr = subprocess.run([PYTHON, "-c", code, str(tok), str(total)], capture_output=True, text=True, timeout=90, env=env)
+        except subprocess.TimeoutExpired:
+            ctx.inconclusive(f"directed race {name}: timeout")
+            return
+        out = [l for l in pr.stdout.splitlines() if l.startswith("AVAILABLE")]
+        if not out:
+            ctx.inconclusive(f"directed race {name}: no output ({pr.stderr[-300:]})")
+            return
+        ctx.count("directed_races")
+        ctx.count("directed_race:" + name)
+        avail, files = out[0].split()[1:]
+        if files != "0":
+            ctx.violation("stale-token-file-not-reclaimed:" + name, f"{files} token file(s) left 20 s after the token object was created", w)
+        elif int(avail) != total:
+            ctx.violation("in-memory-availability-drift:" + name, f"no token file is left but the token object counts {avail} of {total} available (the stale file held {held}): jobs needing more would wait forever", w)
+        ctx.case({"race": name, "total": total, "held": held}, nontrivial=True, sample=w, max_samples=1)
+    finally:
+        shutil.rmtree(base, ignore_errors=True)
